@@ -10,7 +10,9 @@
  *             Vgettagrefs/Vgettagref/Vnrefs/Vgetname/Vgetclass/Vgetnamelen/Vgetclassnamelen/Vgetid/Vgetnext/
  *             VSgetid/Vlone/VSlone/Vfind/Vfindclass; raw DFTAG_VG bytes (Hgetelement) -> `diskrec`;
  *             some cases grow one group across 64/128/256(/512) members;
- *   codec     vpackvg on hand-built VGROUP structs -> `packrec`; vunpackvg on records written by an independent
+ *   codec     vpackvg on hand-built VGROUP structs -> `packrec` (result: record bytes and the version vpackvg leaves in
+ *             vg->version; the model driver also runs the vpackvg TRANSLATED from vgp.c on the same arguments, a difference
+ *             shows as ` GEN=`); vunpackvg on records written by an independent
  *             writer in this file (versions 2,3,4, >4, negative; flags; attribute lists; NULs inside names) -> `unpackrec`;
  *   external  a DFTAG_VG record written with Hputelement by the independent writer, then loaded by Vstart -> `putrec`;
  *   limits    (cases 7,8 mod 50): a Vgroup filled to MAX_REF = 65535 members refuses further Vaddtagref/Vinsert and keeps
@@ -825,7 +827,7 @@ static void codec_case(int k)
         int32 size = 0;
         int16 v0 = g.version;
         vpackvg(&g, buf, &size);
-        printf(" => "); hk_hex(buf, (size_t)size); printf("\n");
+        printf(" => "); hk_hex(buf, (size_t)size); printf(" %u\n", (unsigned)(uint16)g.version); /* record, version left in memory */
         /* oracle: C-side round trip for groups that the format can represent */
         int repr = g.version <= 4 && ((g.version == 4) == (g.flags != 0)); /* g.version as left by vpackvg */
         if (repr) {
